@@ -48,6 +48,16 @@ pub(crate) fn policy_w(p: &LFUPolicy<HS>) -> usize {
     p.inner.lock().admit.w
 }
 
+/// number of eviction rounds of the contract stub: 1 by default, 2 with `--cfg verif_victims2`
+#[cfg(kani)]
+pub(crate) fn contract_max_victims() -> usize {
+    if cfg!(verif_victims2) {
+        2
+    } else {
+        1
+    }
+}
+
 /// Contract stub for `LFUPolicy::add` (DESIGN 3.7), written over the same real `PolicyInner`:
 /// an over-approximation of every admission/eviction decision the real `add` can take.
 #[cfg(kani)]
@@ -65,27 +75,18 @@ pub(crate) fn add_contract<S: BuildHasher + Clone + 'static>(p: &LFUPolicy<S>, k
         p.metrics.add(MetricType::CostAdd, key, cost as u64);
         return (None, true);
     }
-    let mut victims = Vec::new();
+    // up to MAX_VICTIMS arbitrary residents are evicted (the solver picks the keys)
+    let mut victims = Vec::with_capacity(2);
     let mut round = 0;
-    while round < 2 {
-        if nd::any_bool() {
-            // an arbitrary resident
-            let pick = nd::any_usize_in(0, 2);
-            let mut chosen: Option<(u64, i64)> = None;
-            let mut i = 0;
-            for (k, c) in inner.costs.key_costs.iter() {
-                if i == pick {
-                    chosen = Some((*k, *c));
-                }
-                i += 1;
+    while round < contract_max_victims() {
+        let vk = nd::any_u64();
+        let vc = inner.costs.key_costs.get(&vk).copied();
+        if let Some(vc) = vc {
+            if let Some(c) = inner.costs.remove(&vk) {
+                p.metrics.add(MetricType::CostEvict, vk, c as u64);
+                p.metrics.add(MetricType::KeyEvict, vk, 1);
             }
-            if let Some((vk, vc)) = chosen {
-                if let Some(c) = inner.costs.remove(&vk) {
-                    p.metrics.add(MetricType::CostEvict, vk, c as u64);
-                    p.metrics.add(MetricType::KeyEvict, vk, 1);
-                }
-                victims.push(PolicyPair { key: vk, cost: vc });
-            }
+            victims.push(PolicyPair { key: vk, cost: vc });
         }
         round += 1;
     }
